@@ -55,9 +55,12 @@ Fixpoint binv_loop (fuel : nat) (u v x1 x2 : Z) : Z :=
   end.
 
 (* at most 2*256 halvings and 2*256 subtractions for inputs below 2^256 *)
+Definition inv_fuel : nat := 1100.
+Definition binv (a : Z) : Z := (binv_loop inv_fuel (a mod P) P 1 0) mod P.
+
 Definition finv (a : Z) : option Z :=
   if a mod P =? 0 then None else
-  let i := (binv_loop 1100 (a mod P) P 1 0) mod P in
+  let i := binv a in
   if fmul a i =? 1 then Some i else None.
 
 (* ---------- G1: y^2 = x^3 + 3 over F_p ---------- *)
